@@ -63,11 +63,14 @@ def _revert_ensures(result, R_X_F=None, R_X=None, R_YX=None, *, solve_triu=None)
         # least-squares gain: G^T solves R_Y^T R_Y G^T = R_Y^T R12 only in the normal-equation sense.  With a
         # non-singular innovation factor (ghost inverse, inherited precondition) the residual R12 - R_Y G^T
         # vanishes by left cancellation of R_Y^T; the posterior Gram identity then follows as in the triangular case.
-        import probdiffeq.util.cholesky_util as CU
-
-        k = R_YX.shape[0]
-        R = CU.triu_via_qr(jnp.block([[R_YX, jnp.zeros((k, R_X.shape[1]))], [R_X_F, R_X]]))  # memoised kernel call
-        R12 = R[:k, k:]
+        # R12: the block to the right of R_Y in the triangular factor R_Y was cut from (found by role, not by
+        # repeating how the code assembles the argument of the QR kernel); natively it is the solution of
+        # R_Y^T R12 = Cov(Y, X) (unique for a non-singular R_Y)
+        k, n = R_YX.shape[0], R_X.shape[0]
+        if prims.MODE.symbolic:
+            R12 = prims.ghost_parent(R_Y, "qr_r", (k + n, k + n))[:k, k:]
+        else:
+            R12 = jnp.linalg.solve(R_Y.T, C.T)
         V = prims.ghost_inverse(R_Y)
         cl.append(cancel("lstsq_residual_vanishes", R12 - R_Y @ G.T, R_Y.T, V.T))
     cl.append(eq("posterior_gram", R_XY.T @ R_XY, P - G @ S @ G.T))
